@@ -87,12 +87,12 @@ def replayable(enc):
     pt = ts.threads.index(ts.prefix_thread) if ts.prefix_thread is not None else None
     for i in range(1, enc.K):
         for e, f in enc.fired[i]:
-            if not any(sync for _, _, sync in e.info):
+            if not any(op[2] for op in e.info):
                 ti = ts.threads.index(e.thread)
                 ok = enc.choice[i - 1] == ti
                 cons.append(z3.Implies(f, ok))
     for e, f in enc.fired[0]:
-        if not any(sync for _, _, sync in e.info):
+        if not any(op[2] for op in e.info):
             # only the set-up thread may open with a plain step: in the replay it is the thread already running
             if pt is None or ts.threads.index(e.thread) != pt:
                 cons.append(z3.Not(f))
@@ -101,17 +101,94 @@ def replayable(enc):
         for e, f in enc.fired[0]:
             if ts.threads.index(e.thread) != pt:
                 for e2 in ts.by_thread[ts.prefix_thread]:
-                    if e2.src == ts.entry[ts.prefix_thread] and not any(sync for _, _, sync in e2.info):
+                    if e2.src == ts.entry[ts.prefix_thread] and not any(op[2] for op in e2.info):
                         cons.append(z3.Not(z3.And(f, enc.edge_enabled(e2, enc.states[0], enc.nd[0]))))
     return cons
+
+
+def _line_gated(op):
+    return op[3] == 1 and op[2] not in replay.EXPLICIT and op[0]
+
+
+def _postcall(op):
+    return op[3] == 2 and op[2] not in replay.EXPLICIT
+
+
+def line_discipline(enc):
+    """discipline for line-granular replay: a real thread asks for its turn when it *starts* a gated source line and
+    then runs the whole line.  So (1) two scheduling points of one thread on the same line, and (2) a scheduling point
+    that runs after a call on the same line returned (no line event of its own), must directly follow the thread's
+    previous step; the set-up thread opens as before."""
+    ts = enc.ts
+    cons = []
+    by_dst = {}
+    for e in ts.edges:
+        by_dst.setdefault((e.thread, e.dst), []).append(e)
+    needs = set()
+    for e in ts.edges:
+        first = next((op for op in e.info if op[3]), None)
+        if first is None:
+            continue
+        if _postcall(first):
+            needs.add(id(e))
+            continue
+        if not _line_gated(first):
+            continue
+        for p in by_dst.get((e.thread, e.src), []):
+            last = next((op for op in reversed(p.info) if op[3]), None)
+            if last is not None and last[2] not in replay.EXPLICIT and last[0] == first[0]:
+                needs.add(id(e))
+    pt = ts.threads.index(ts.prefix_thread) if ts.prefix_thread is not None else None
+    for i in range(1, enc.K):
+        for e, f in enc.fired[i]:
+            if id(e) in needs:
+                cons.append(z3.Implies(f, enc.choice[i - 1] == ts.threads.index(e.thread)))
+    for e, f in enc.fired[0]:
+        if id(e) in needs and (pt is None or ts.threads.index(e.thread) != pt):
+            cons.append(z3.Not(f))
+    return cons
+
+
+def line_order(trace, ts):
+    """one entry per line *execution* that carries a scheduling point (a `with` line is executed on entry and on exit)"""
+    files = ts.model.files
+    order = []
+    cur = {}        # thread -> line key of the line execution it is in (None after it moved to another line)
+    for s in trace["steps"]:
+        t = s["thread"]
+        for op in s["all_ops"]:
+            ln = op[0]
+            if op[3] and op[2] in replay.EXPLICIT:
+                order.append((t, op[2]))
+                continue
+            if not ln:
+                continue
+            key = f"line:{files[ln // 100000]}:{ln % 100000}"
+            kind = op[2] if op[2] in ("wait-timeout", "interrupt") else None
+            if cur.get(t) != key:
+                cur[t] = key
+                if op[3] == 1:
+                    order.append((t, key, kind))
+                    cur[(t, "entry")] = len(order) - 1
+                else:
+                    cur[(t, "entry")] = None
+            else:
+                idx = cur.get((t, "entry"))
+                if op[3] == 1 and idx is None:
+                    # first scheduling point of a line execution that started with invisible operations
+                    order.append((t, key, kind))
+                    cur[(t, "entry")] = len(order) - 1
+                elif kind and idx is not None:
+                    order[idx] = (t, key, kind)
+    return order
 
 
 def sync_order(trace, ts=None):
     order = list(ts.prefix_order) if ts is not None else []
     for s in trace["steps"]:
-        for ln, txt, sync in s["ops"]:
-            if sync:
-                order.append((s["thread"], sync))
+        for op in s["ops"]:
+            if op[2]:
+                order.append((s["thread"], op[2]))
     return order
 
 
@@ -136,7 +213,7 @@ def check_scenario(spec: dict) -> dict:
         for _ in range(spec.get("validate", 3)):
             st, tr = simulate_replayable(sc, rng)
             maxlen = max(maxlen, len(tr))
-            order = list(ts.prefix_order) + [(e.thread, sync) for e in tr for _, _, sync in e.info if sync]
+            order = list(ts.prefix_order) + [(e.thread, op[2]) for e in tr for op in e.info if op[2]]
             ghost, done, blocked, sched = sc.replay(order)
             want = sc.observe_model(st)
             got = sc.observe_real(ghost, done, blocked)
@@ -197,21 +274,23 @@ def check_scenario(spec: dict) -> dict:
         anybad = z3.Or([b for _, b in bads])
         r, _ = run("violation: any bad condition (must be unsat)", [anybad])
         if r == "sat":
-            r2, tr = run("violation under the replayable discipline", [anybad] + replayable(enc), want_model=True)
+            mode = "sync"
+            r2, tr = run("violation, context switches at synchronisation operations (replayable by the sync-point scheduler)", [anybad] + replayable(enc), want_model=True)
             if r2 != "sat":
-                res["harness_errors"].append(f"{spec['name']}: a model counterexample exists but none under the replay discipline ({r2})")
+                mode = "line"
+                r2, tr = run("violation, context switches at source-line boundaries (replayable by the line-granular scheduler)", [anybad] + line_discipline(enc), want_model=True)
+            if r2 != "sat":
+                res["harness_errors"].append(f"{spec['name']}: a model counterexample exists but none that the replay schedulers can reproduce (sync points: unsat/unknown, source lines: {r2})")
             else:
-                which = []
-                fin = tr["final"]
-                order = sync_order(tr, ts)
-                ghost, done, blocked, sched = sc.replay(order)
+                order = sync_order(tr, ts) if mode == "sync" else line_order(tr, ts)
+                ghost, done, blocked, sched = sc.replay(order, mode=mode)
                 hits = real_bad(sc.bad, ghost, done, blocked)
-                listing = [f"{s['thread']}: " + "; ".join(f"{txt}" for ln, txt, sy in s["ops"] if txt)[:160] for s in tr["steps"]]
+                listing = [f"{s['thread']}: " + "; ".join(f"{op[1]}" for op in s["ops"] if op[1])[:160] for s in tr["steps"]]
                 if hits and not sched.diverged:
-                    res["violations"].append({"signature": hits[0], "what": f"{spec['name']}: {hits} (model trace of {len(tr['steps'])} steps replayed on the real classes: "
-                                              f"ghost={ghost}, finished={done}, blocked={blocked})", "order": order, "trace": listing, "scenario": spec})
+                    res["violations"].append({"signature": hits[0], "what": f"{spec['name']}: {hits} (model trace of {len(tr['steps'])} steps replayed on the real classes, {mode}-granular: "
+                                              f"ghost={ghost}, finished={done}, blocked={blocked})", "order": order, "mode": mode, "trace": listing, "scenario": spec})
                 else:
-                    res["harness_errors"].append(f"{spec['name']}: model counterexample did not reproduce on the real classes (diverged={sched.diverged}, hits={hits}, ghost={ghost}, blocked={blocked}); trace: {listing[:40]}")
+                    res["harness_errors"].append(f"{spec['name']}: model counterexample did not reproduce on the real classes ({mode}-granular replay, diverged={sched.diverged}, hits={hits}, blocked={blocked}); first steps: {listing[:12]}")
         elif r != "unsat":
             res["inconclusive"].append(f"{spec['name']}: violation query gave {r}")
         if spec.get("export_smt2"):
@@ -238,11 +317,11 @@ def simulate_replayable(sc, rng, max_steps=3000):
         en = ts.enabled(st, nd)
         if not en:
             break
-        forced = [e for e in en if e.thread == last and not any(s for _, _, s in e.info)]
+        forced = [e for e in en if e.thread == last and not any(op[2] for op in e.info)]
         if forced:
             e = forced[0]
         else:
-            cand = [e for e in en if any(s for _, _, s in e.info)]
+            cand = [e for e in en if any(op[2] for op in e.info)]
             if not cand:
                 cand = en
             e = rng.choice(cand)
@@ -317,7 +396,7 @@ def outcome_from(property_id, tier, results, functions, assumptions, bounds, out
         out.inconclusive += r["inconclusive"]
         for v in r["violations"]:
             out.violations.append(Violation(signature=f"{sigprefix}:{v['signature']}", what=v["what"],
-                                            replay={"engine": "E2", "scenario": v["scenario"], "order": v["order"], "trace": v["trace"]}))
+                                            replay={"engine": "E2", "scenario": v["scenario"], "order": v["order"], "mode": v.get("mode", "sync"), "trace": v["trace"]}))
     ok = [r for r in results if "cfa_locations" in r]
     samples = []
     for r in ok[:2]:
